@@ -1459,8 +1459,10 @@ func genC08(c *ctx) {
 					oracle = "an unfinalised proof object was accepted by VerifyParsed"
 				}
 			case 5:
-				if encoded {
-					// hand-built extension from the published tail
+				if final[s] {
+					// hand-built extension from the published tail (the tail of an object that was never encoded is not
+					// published: extending THAT by hand is what Add does; with by-value copies around, "some slot was
+					// encoded" does not mean this one was)
 					e := b.slot()
 					b.do(sym.Op{Kind: "ODecodeRaw", Dst: e, Src: s})
 					b.do(sym.Op{Kind: "OAppendData", S: e, Ds: []sym.D{sym.DOf(rng.Pick(r, dataIDs))}})
